@@ -26,6 +26,8 @@ def run(ctx):
     # the reporters of Reporters.tla are deterministic functions: the replay compares every run with the unique predicted rows
     common.replay_layer(ctx, "MC_Reporters.tla", "MC_Reporters_quick.cfg", "reporters-replay", "reporters", workers=10, heap="3g",
                         shape_filter=lambda sh: sh in ("report-quantity-rows", "report-unresolved-rows", "element-by-food-rows", "report-totals-rows"))
+    if ctx.tier == "thorough":
+        vlib.vacuity_check(ctx, "Determinism.tla", "MC_Determinism.cfg", expect_zero=())
     return vlib.finish(
         ctx, "model_checking",
         rule="Determinism.tla: every set of <= 4 keys x values with ties x every iteration order, for the site kinds the code uses (keys sorted "
